@@ -42,7 +42,7 @@ def suite_hist(ctx):
                     if st2 is st:
                         break
                     if st2['op'][0] == 'espr':
-                        wn = st2['op'][1]
+                        wn = st2['op'][1] is True     # a bare block ('b') never waits: wait_nrc was reset by the previous exit
                     elif st2['op'][0] == 'xspr':
                         wn = None
                 if not wn and (st['verdict'] != 'none' or len(sends) != 1):
@@ -94,7 +94,7 @@ def suite_hist(ctx):
                     if st2 is st:
                         break
                     if st2['op'][0] == 'espr':
-                        wnrc = st2['op'][1]
+                        wnrc = st2['op'][1] is True
                     elif st2['op'][0] == 'xspr':
                         wnrc = None
                 if not wnrc:
@@ -104,7 +104,7 @@ def suite_hist(ctx):
                     k = m.get('kind')
                     if not hist.all_in_time(op[2], b['timing'], hcfg):
                         k = 'silence'
-                    if k in ('good', 'silence', 'pend_good') and not depth and st['verdict'] != 'none':
+                    if k in ('good', 'silence', 'pend_good', 'pend_silence') and not depth and st['verdict'] != 'none':
                         s.fail(dict(rec, observed=st['verdict'], required='None (wait_nrc: silence or positive reply)'))
                     if k in ('neg', 'pend_neg') and not st['verdict'].startswith('negative'):
                         s.fail(dict(rec, observed=st['verdict'], required='negative response processed normally'))
